@@ -24,7 +24,7 @@ abbrev T2 := String × Text       -- (type, value)
 
 /-! ### pre-pass -/
 
-def prepassStep (acc : List T2) (t : T2) : List T2 :=
+def prepassStep (T : Tables) (acc : List T2) (t : T2) : List T2 :=
   -- `acc` is kept reversed: head = tokens[-1]
   let typ := t.1
   let val := t.2
@@ -38,7 +38,8 @@ def prepassStep (acc : List T2) (t : T2) : List T2 :=
     else if typ == "IDENT" && last.2 == str "." then ("class", str "." ++ val) :: rest
     else if typ == "IDENT" && startsWith last.2 (str ":") && !endsWith last.2 (str "(") then
       ((if startsWith last.2 (str "::") then "pseudo-element" else "pseudo-class"), last.2 ++ val) :: rest
-    else if typ == "FUNCTION" && val == str "not(" && last.2 == str ":" then ("negation", str ":" ++ val) :: rest
+    else if typ == "FUNCTION" && normalize T val == str "not(" && last.2 == str ":" then
+      ("negation", str ":" ++ val) :: rest
     else if typ == "FUNCTION" && startsWith last.2 (str ":") then
       ((if startsWith last.2 (str "::") then "pseudo-element" else "pseudo-class"), last.2 ++ val) :: rest
     else if val == str "*" && last.1 == "namespace_prefix" && endsWith last.2 (str "|") then
@@ -49,7 +50,7 @@ def prepassStep (acc : List T2) (t : T2) : List T2 :=
     else if val == str "|" then ("namespace_prefix", val) :: acc
     else t :: acc
 
-def prepass (ts : List T2) : List T2 := (ts.foldl prepassStep []).reverse
+def prepass (T : Tables) (ts : List T2) : List T2 := (ts.foldl (prepassStep T) []).reverse
 
 /-! ### the state machine -/
 
@@ -76,6 +77,7 @@ structure St where
   items : List Item            -- reversed
   wellformed : Bool
   nsErr : Bool                 -- an undeclared prefix was met (NamespaceErr)
+  firstErr : String            -- class of the first error logged ("" = none)
   deriving Repr
 
 def sss : Text := str "type_selector universal HASH class attrib pseudo negation "
@@ -94,7 +96,7 @@ def combinator : Text := str " combinator"
 
 def init : St :=
   { expected := sss, context := [""], pfx := none, b := 0, c := 0, d := 0, items := [], wellformed := true,
-    nsErr := false }
+    nsErr := false, firstErr := "" }
 
 def ctx (st : St) : String := st.context.head?.getD ""
 
@@ -114,15 +116,15 @@ def append (m : NsMap) (st : St) (val : Text) (typ : String) : St :=
         let i := (val.findIdx? (· == 124)).getD 0
         (some (val.take i), val.drop (i + 1), st)
       else (none, val, st)
-  let prefix := pv.1
+  let pfx0 := pv.1
   let name := pv.2.1
   let st := pv.2.2
   let isSel := typ.endsWith "-selector" || typ == "universal"
-  let namespaced := isSel && !(typ == "attribute-selector" && (prefix.isNone || prefix == some []))
+  let namespaced := isSel && !(typ == "attribute-selector" && (pfx0.isNone || pfx0 == some []))
   -- namespace resolution: `none` result = undeclared prefix
   let res : Option (Option Ns) :=
     if namespaced then
-      match prefix with
+      match pfx0 with
       | some p =>
         if p == str "*" then some (some .any)
         else if p == [] then some (some .empty)
@@ -132,7 +134,9 @@ def append (m : NsMap) (st : St) (val : Text) (typ : String) : St :=
       | none => some (some (match nsGet m [] with | some u => .uri u | none => .none))
     else some none
   match res with
-  | none => { st with wellformed := false, nsErr := true }
+  | none =>
+    { st with wellformed := false, nsErr := true,
+              firstErr := (if st.firstErr == "" then "NamespaceErr" else st.firstErr) }
   | some ns =>
     let c := ctx st
     let counts := c == "" || c == "negation"
@@ -147,7 +151,11 @@ def append (m : NsMap) (st : St) (val : Text) (typ : String) : St :=
       else st
     { st with items := ⟨typ, name, ns⟩ :: st.items }
 
-def fail (st : St) : St := { st with wellformed := false }
+def fail (st : St) : St :=
+  { st with wellformed := false, firstErr := (if st.firstErr == "" then "SyntaxErr" else st.firstErr) }
+
+def failWith (st : St) (e : String) : St :=
+  { st with wellformed := false, firstErr := (if st.firstErr == "" then e else st.firstErr) }
 
 def lowerName (T : Tables) (v : Text) : Text := normalize T v
 
@@ -195,9 +203,8 @@ def step (T : Tables) (m : NsMap) (st : St) (t : T2) : St :=
     if c == "attrib" && has "combinator" then ret (append m st val typ.toLower) attvalue else fail st
   else if typ == "STRING" then
     -- `_stringtokenvalue`: quotes removed, escaped quote resolved
-    let q := val.take 1
-    let inner := (val.drop 1).take (val.length - 2)
-    let sv := inner      -- escaped quotes are resolved by the harness-independent helper below
+    -- `_stringtokenvalue`: the surrounding quotes are removed (escaped quotes inside are not generated)
+    let sv := (val.drop 1).take (val.length - 2)
     if c == "attrib" && has "value" then ret (append m st sv typ) attend
     else if c.startsWith "pseudo-" then ret (append m st sv typ) expression
     else fail st
@@ -243,7 +250,8 @@ def step (T : Tables) (m : NsMap) (st : St) (t : T2) : St :=
     else if val == str ")" && c.startsWith "pseudo-" && exp == expression then
       let st := append m st val "function-end"
       let st := { st with context := st.context.drop 1 }
-      if c == "pseudo-element" then ret st combinator else ret st (sss ++ combinator)
+      if ctx st == "negation" then ret st negationEnd
+      else if c == "pseudo-element" then ret st combinator else ret st (sss ++ combinator)
     else if val == str "[" && has "attrib" then
       let st := append m st val "attribute-start"
       ret { st with context := "attrib" :: st.context } attname
@@ -255,19 +263,21 @@ def step (T : Tables) (m : NsMap) (st : St) (t : T2) : St :=
         if last.val == str " " && last.ns.isNone then ret { st with items := ⟨nm, val, none⟩ :: rest } sss
         else ret (append m st val nm) sss
       | [] => ret (append m st val nm) sss
+    else if val == str "," then failWith st "InvalidModificationErr"
     else fail st
   else fail st       -- no production for this token type
 
 structure Result where
   wellformed : Bool
   nsErr : Bool
+  firstErr : String
   spec : Nat × Nat × Nat
   items : List Item
   deriving Repr
 
 /-- the whole of `_setSelectorText` after tokenizing -/
 def parse (T : Tables) (m : NsMap) (toks : List T2) : Result :=
-  let st := (prepass toks).foldl (step T m) init
+  let st := (prepass T toks).foldl (step T m) init
   let items0 := st.items
   let wf := st.wellformed
     && !(st.context.length > 1 || items0.isEmpty)
@@ -278,6 +288,7 @@ def parse (T : Tables) (m : NsMap) (toks : List T2) : Result :=
     | last :: rest => if last.ns.isNone && last.val.all (fun c => c == 32 || c == 9 || c == 10 || c == 13 || c == 12)
         && !(last.typ == "COMMENT") then rest else items0
     | [] => []
-  { wellformed := wf, nsErr := st.nsErr, spec := (st.b, st.c, st.d), items := items1.reverse }
+  { wellformed := wf, nsErr := st.nsErr,
+    firstErr := (if st.firstErr != "" then st.firstErr else if wf then "" else "SyntaxErr"), spec := (st.b, st.c, st.d), items := items1.reverse }
 
 end CssVerif.Selector
